@@ -32,11 +32,13 @@ type facts struct {
 	verdict map[Hash]bool
 	policy  map[Hash]bool // payload hash -> last verdict of the application's policy callbacks (VerifyPrepareRequest / VerifyPrepareResponse / VerifyCommit / VerifyPreCommit)
 	anyEarly bool // some (pre)commit reached this node before its proposal at the current height
+	// payloads that reached this incarnation from outside (direct or inside a recovery message)
+	heard map[Hash]bool
 	// transactions in the node's possession (pool or supplied) are in n.pool
 }
 
 func newFacts() *facts {
-	return &facts{early: map[Hash]bool{}, proposals: map[hv][]*Payload{}, delivered: map[uint32]map[delivKey][]*Payload{}, verdict: map[Hash]bool{}, policy: map[Hash]bool{}}
+	return &facts{early: map[Hash]bool{}, proposals: map[hv][]*Payload{}, delivered: map[uint32]map[delivKey][]*Payload{}, verdict: map[Hash]bool{}, policy: map[Hash]bool{}, heard: map[Hash]bool{}}
 }
 
 func (f *facts) gc(cur uint32) {
@@ -82,6 +84,7 @@ func (f *facts) addDelivered(p *Payload) {
 func (n *Node) noteDelivery(p *Payload) {
 	f := n.facts
 	f.addDelivered(p)
+	f.heard[p.Hash()] = true
 	if rm, ok := p.Body.(*RecMsg); ok {
 		vals := n.valsPub(p.H)
 		add := func(l []*Payload, sameView bool) {
@@ -90,6 +93,7 @@ func (n *Node) noteDelivery(p *Payload) {
 					continue
 				}
 				f.addDelivered(e)
+				f.heard[e.Hash()] = true
 			}
 		}
 		if rm.PrepReqP != nil {
